@@ -676,7 +676,7 @@ func c14R7(c *Ctx) {
 			return
 		}
 		al, isAl := st.Addr.(*ssa.Alloc)
-		if !isAl || al.Comment != "confirm" {
+		if !isAl || allocName(al) != "confirm" {
 			return
 		}
 		cell = al
